@@ -7,11 +7,7 @@
     on_end_run).  Every statement quantifies over EVERY stream [es] accepted by C09's prefix
     recogniser, i.e. (C09_prefix_closed) every well-formed stream cut at any point: a kill.
     The expected values ([active], [pl_of], [notices] ...) are functions of the history alone.
-
-    NOT proved here: the clause "each prompt is reported open and then closed with the command
-    that answered it" (C11_prompt_open_close).  It is checked on every run by the model/
-    implementation comparison of the topics prompt_info and prompt_info_<n> and by the oracle
-    (signature registrars:prompt-open-close), see harness/props/c11.py. *)
+ *)
 From NL Require Import Events.Grammar Events.GrammarProofs Registrars.Model Registrars.Proofs Registrars.Order.
 Open Scope Z_scope.
 
@@ -38,6 +34,21 @@ Proof. exact trace_info_once. Qed.
 Theorem C11_notice_bijection : forall r es, wf_prefix r es = true ->
   on_topic TPromptNotice (pubs_events r es) = notices r es es.
 Proof. exact notice_bijection. Qed.
+
+(** prompts are reported open and then closed with the command that answered them.  Exactly:
+    over the whole run (the events of any truncated stream, then on_end_run) the publications
+    that report on a prompt ([is_report]: a PromptInfo carrying the prompt text) are, on
+    prompt_info, in stream order: one open=true report for each OnStartPrompt (numbers and
+    text of that event, location of the enclosing trace call) and one open=false report for
+    each OnEndPrompt carrying the command of THAT event and the numbers/location/text of the
+    prompt -- nothing else; on prompt_info_<t> the same for the prompts of trace t.  By the
+    grammar (C09) the OnEndPrompt of a prompt follows its OnStartPrompt, at most once; a prompt
+    still open when the stream is cut (kill) has no OnEndPrompt and gets no closing report,
+    neither from the events nor from on_end_run *)
+Theorem C11_prompt_open_close : forall r es, wf_prefix r es = true ->
+  filter is_report (on_topic TPromptInfo (pubs_run r es)) = prompt_reports r es es /\
+  forall t, filter is_report (on_topic (TPromptInfoFor t) (pubs_run r es)) = prompt_reports r es (proj t es).
+Proof. exact prompt_open_close. Qed.
 
 (** closed out, (i): after on_end_run the published active set is () *)
 Theorem C11_closed_out_active_set : forall r es, last_nos (pubs_run r es) = [].
@@ -83,12 +94,19 @@ Example C11_example_nonvacuous :
   on_topic TPromptNotice (pubs_run 1 ex_killed) =
     [Some (VNotice 1 1 1 3 7); Some (VNotice 1 2 2 3 8); None] /\
   notices 1 ex_killed ex_killed = [Some (VNotice 1 1 1 3 7); Some (VNotice 1 2 2 3 8)] /\
+  filter is_report (on_topic TPromptInfo (pubs_run 1 ex_killed)) =
+    [Some (VPromptInfo (mkPinfo 1 1 1 true (Some 7) (Some 3) None false));
+     Some (VPromptInfo (mkPinfo 1 1 1 false (Some 7) (Some 3) (Some 9) false));
+     Some (VPromptInfo (mkPinfo 1 2 2 true (Some 8) (Some 3) None false))] /\
+  prompt_reports 1 ex_killed (proj 2 ex_killed) =
+    [Some (VPromptInfo (mkPinfo 1 2 2 true (Some 8) (Some 3) None false))] /\
   raised (pubs_run 1 ex_killed) = false.
 Proof. vm_compute. repeat split; reflexivity. Qed.
 
 Print Assumptions C11_active_set.
 Print Assumptions C11_trace_info_once.
 Print Assumptions C11_notice_bijection.
+Print Assumptions C11_prompt_open_close.
 Print Assumptions C11_closed_out_active_set.
 Print Assumptions C11_closed_out_prompt_topics.
 Print Assumptions C11_closed_out_subscribers_terminate.
